@@ -40,7 +40,7 @@ def individual_rows(id_, dataval, dim, long=False, events=False, precise=False):
         r = {"ID": id_, "TIME": float(np.round(t, 4))}
         if events:                   # (a cohort needs one observed event; the event is at or after the last visit)
             r["EVENT_TIME"] = float(np.round(ts[-1] + (0.25 if dataval == "d1" else 1.5), 4))
-            r["EVENT_BOOL"] = 0 if dataval == "dbad" else 1
+            r["EVENT_BOOL"] = 1       # (every variant carries an observed event: a cohort without one is refused by the reader)
         for f in range(dim):
             y = 1 / (1 + np.exp(-(t - tau - 2 * f) / 4)) + rng.randn() * (0.003 if precise else 0.03)
             y = float(np.clip(y, 0.02, 0.98))
